@@ -539,7 +539,9 @@ EXPRS = ['1', '-3', '1.5', '2j', '"ab"', 'b"x"', '[1, 2]', '(1,)', '()', '{}', '
          '[os.sep, 1]', '{[1]: 2}', '{(1, [2]): 3}', '{1: 2, 1: 3}', '{"a": 1, "b": 2, "a": 3}', '{(1, 2): 3}',
          '{None: 1}', '{1.5: 2}', '{True: 1}', '{1: 2, 2.5: 3}', 'lambda: 1', '[x for x in y]', '1 if 2 else 3',
          'f"a"', 'a and b', '-(1 + 2)', '-[1]', '(1 + 2) * 3', '[[1] * 2] * 2', '"%s" % 1', '-1.5', '-0.0',
-         '(-1.5-2j)', '(1e+16+1j)', '-2j', '(-0-2j)', '(-0+2j)', '(1-0j)']
+         '(-1.5-2j)', '(1e+16+1j)', '-2j', '(-0-2j)', '(-0+2j)', '(1-0j)',
+         # huge repetitions: the interpreter raises MemoryError at once, the model declines (never builds them)
+         'sys.maxsize * (1,)', '() * sys.maxsize', '"ab" * sys.maxsize', 'sys.maxsize * []', '[0] * 70000']
 
 
 class C08(core.Check):
